@@ -65,8 +65,41 @@ META["C19"] = _m("TLC checks the Mapping model's invariants (len = number of sto
 # C18 Pool, C20 SolverCache: state-graph replay
 # ---------------------------------------------------------------------------
 def _c18(prop, tier, seed, t0):
+    import subprocess
+    import concurrent.futures as cf
     rep = check.graph_replay(prop, "pool", "MC_Pool.tla", f"MC_Pool_{tier}.cfg", "pool", [], workers=8)
-    return check.finish_graph_check(prop, tier, seed, t0, [rep])
+    # implementation -> spec: long random histories (every arena crosses several chunk
+    # boundaries) followed through Pool.tla
+    exe = vlib.build_harness("release")
+    wd = os.path.join(vlib.WORK, prop)
+    os.makedirs(wd, exist_ok=True)
+    nfiles, per, ops = (6, 2, 1200) if tier == "quick" else (14, 6, 2500)
+    traces = []
+    for i in range(nfiles):
+        t = os.path.join(wd, f"hist{i}.trace")
+        subprocess.run([exe, "pool-histories", "--n", str(per), "--ops", str(ops), "--seed", str(seed * 100 + i),
+                        "--out", t], check=True)
+        traces.append(t)
+    fails, events, hist, chunks = [], 0, 0, 0
+    with cf.ThreadPoolExecutor(max_workers=8) as ex:
+        for f, covers, begins, st in ex.map(lambda t: vlib.validate_trace(t, "Trace_Pool.tla", "Trace_Pool.cfg", tag=prop), traces):
+            fails += f
+            events += st["states"]
+            hist += len(begins)
+            chunks += len(covers)
+    extra = {"random_histories_validated": hist, "history_events": events, "operations_per_history": ops,
+             "events_beyond_the_first_chunk_of_three_tables": chunks}
+    rc = check.finish_graph_check(prop, tier, seed, t0, [rep], extra)
+    if fails:
+        f0 = vlib.first_fail_per_run(fails)[0]
+        path = vlib.write_replay(prop, dict(f0, trace=None), {"history_trace": f0["trace"]})
+        print(f"VIOLATION property={prop} replay={path}")
+        vlib.log(f"  rule={f0['rule']} history={f0['id']} info={f0['info'][:300]}")
+        ev = json.load(open(os.path.join(vlib.EVIDENCE, f"{prop}.json")))
+        ev["violations"] = ev.get("violations", 0) + len(fails)
+        json.dump(ev, open(os.path.join(vlib.EVIDENCE, f"{prop}.json"), "w"), indent=1)
+        rc = 1
+    return rc
 
 
 def _c20(prop, tier, seed, t0):
@@ -101,7 +134,7 @@ import json, os, time
 import vlib
 CHECKS["C18"] = _c18
 CHECKS["C20"] = _c20
-META["C18"] = _m("TLC checks InternUnique on the Pool model and prints its complete state graph (names, strings, version sets interned by value; solvables and unions fresh and dense), optionally preceded by a bulk load of 127-129 (thorough: 126-300) items per table so that later operations cross the arenas' 128-element chunk boundaries; every transition is replayed on a real Pool, comparing returned ids, all tables, lookups, and that every reference handed out earlier still has the same address and value.", "6 C18", "TLC state-graph generation + replay of every transition into the real Pool",
+META["C18"] = _m("TLC checks InternUnique on the Pool model and prints its complete state graph (names, strings, version sets interned by value; solvables and unions fresh and dense), optionally preceded by a bulk load of 127-129 (thorough: 126-300) items per table so that later operations cross the arenas' 128-element chunk boundaries; every transition is replayed on a real Pool, comparing returned ids, all tables, lookups, and that every reference handed out earlier still has the same address and value. In the other direction long random histories (1 200 / 2 500 intern, lookup and resolve calls each, several hundred items per table) recorded from a real Pool are followed through Pool.tla by TLC (Trace_Pool.tla): returned ids, a resolved value per call, and stability of everything handed out before.", "6 C18", "TLC state-graph generation + replay of every transition into the real Pool; TLA+ trace validation of long random histories",
                  note="Trusted: Pool.tla; address stability is observed (pointer equality of re-resolved references), undefined behaviour that does not move memory is invisible. Bounded alphabet.")
 META["C20"] = _m("TLC checks Partition and SortedIsPermutation on the Cache model and prints the complete query graph over a family of two-package universes (favored in every position, hints none/all/some, missing package, empty version set, union requirement); every transition is replayed on a real SolverCache comparing the returned value, the exact sequence of provider calls (none for a repeated query) and the availability answer for every solvable. In addition real solves whose sort_candidates re-enters the cache are validated by TLC (C20_Availability).", "6 C20", "TLC state-graph generation + replay into the real SolverCache; TLA+ trace validation of re-entrant queries",
                  note="Trusted: Cache.tla and Universe.tla (Sorted, Match); bounded universe family and query alphabet.")
